@@ -80,7 +80,11 @@ mod write_fut;
 /// Re-exports for the external verification harness (feature `verif`).
 #[cfg(feature = "verif")]
 pub mod verif_hooks {
+    pub use super::external_links::{
+        external_links_task, LinksTaskState, NoReport, PendingWrites, ReportFailed,
+    };
     pub use super::links::{Links, TriggerUnlink};
+    pub use super::{CommandChannelRequest, ExternalLinkRequest};
 }
 
 pub use external_links::LinksTaskConfig;
